@@ -1,0 +1,13 @@
+//go:build verif
+
+// Contracts for package tilecover, read by the VC generator in /verif (govc). Comments only.
+// maptile.At is a pure deterministic function of the point and the zoom (`function` in maptile).
+
+package tilecover
+
+// the cover of a point is exactly its tile
+//@ func Point(ll, z)
+//@   mode bv
+//@   modifies nothing
+//@   ensures result != nil && len(result) == 1 && has(result, maptile.At(ll, z)) && result[maptile.At(ll, z)]
+
